@@ -20,11 +20,19 @@ def compile_case(src, **kw):
     from problog.cnf_formula import CNF
     from problog.ddnnf_formula import DDNNF
 
-    lf = LogicFormula.create_from(PrologString(src), **kw)
-    dag = LogicDAG.create_from(lf, **kw)
-    cnf = CNF.create_from(dag)
+    try:
+        lf = LogicFormula.create_from(PrologString(src), **kw)
+        dag = LogicDAG.create_from(lf, **kw)
+        cnf = CNF.create_from(dag)
+    except Exception as exc:  # noqa
+        # an exception before compilation is not this property's business (C01/C02/C09/C27 own it)
+        raise NotCompiled(exc)
     nnf = DDNNF.create_from(cnf)
     return cnf, nnf
+
+
+class NotCompiled(Exception):
+    pass
 
 
 def check_circuit(cnf, nnf, max_vars):
@@ -108,6 +116,8 @@ def run_case(prog, tier):
         return None, "timeout", {}
     except RecursionError:
         return None, "recursion", {}
+    except NotCompiled as exc:
+        return None, "error:" + type(exc.args[0]).__name__, {}
     except Exception as exc:  # noqa
         c = classify_exception(exc)
         if c[0] == "error":
